@@ -8,9 +8,13 @@ from sa.loader import Repo, fixture
 from sa.report import Check
 
 EXPLANATION = (
-    "Static rules over /repo/src/graphql decided from source only: "
-    "LEX-BOUNDS (every non-slice index read in the lexers and block-string helpers is "
-    "entailed in range by dominating facts or covered by try/except IndexError)."
+    "LEX-BOUNDS (every index read of the lexers proven in range on all paths), PARSE-RAISES (exception "
+    "classes escaping the five parse entry points, through the resolved call graph, are only "
+    "GraphQLSyntaxError; parser dispatch tables name existing methods), CONVERT + TWIN-HANDLERS (error -> "
+    "result conversion at every sync and async site), EXEC-WRAP (only located GraphQLErrors escape field "
+    "execution; user callbacks are called under try/except Exception), UNTRUSTED-ATTR (duck-typed "
+    "attributes of resolver exceptions are type-tested before use), VALIDATE-TOTAL + VISITED-BEFORE-RECURSE "
+    "+ SUBSUMPTION/MEMO-PAIR/CYCLE-GUARD (validation neither raises nor recurses without bound)."
 )
 
 LEX_MODULES = ["language.lexer", "language.schema_coordinate_lexer", "language.block_string"]
@@ -37,12 +41,28 @@ def lex_bounds(check: Check, repo: Repo) -> None:
 
 
 def run(check: Check, repo: Repo, tier: str) -> None:
+    from rules import exec_rules as X, merge_rules as M, total_rules as T
+    from sa.raises import MayRaise
+
     lex_bounds(check, repo)
+    mr = MayRaise(repo)
+    T.parse_raises(check, repo, mr)
+    T.convert_sites(check, repo)
+    T.exec_total(check, repo, mr)
+    X.twin_handlers(check, repo, repo.package_modules("execution"))
+    T.untrusted_attr(check, repo)
+    vmods = [m for m in repo.package_modules("validation")] + [repo.mod("execution.collect_fields"), repo.mod("utilities.separate_operations")]
+    T.visited_before_recurse(check, repo, vmods)
+    T.validate_total(check, repo, mr)
+    M.subsumption(check, repo)
+    M.memo_pair(check, repo)
+    M.cycle_guard(check, repo)
 
 LEVEL_TEXT = (
-    "Static decision of structural necessary conditions of totality: every index read of the "
-    "lexers is proven in range on all paths (so no source string can raise IndexError there). "
-    "Does not decide well-formedness of every response."
+    "Static decision of structural necessary conditions of totality: no lexer read can leave the source, "
+    "only the syntax error class can escape parsing, only located errors escape field execution, "
+    "validation handlers cannot raise or recurse unboundedly, and every error -> result conversion site "
+    "exists on the sync and the async path. Does not decide well-formedness of every response."
 )
 LEVEL_NOTE = (
     "Trusted: CPython ast; the guard-entailment engine (linear facts from dominating tests, "
